@@ -80,9 +80,10 @@ def parse_vwsc_data(fdata: bytes) -> List[Any]:
     idx += 2
     logging.debug("unknown02 = %04x", unknown02)
     
-    channelDataList = bytearray(channel_count * frame_size)
-    
+    # Unsupported frame sizes are rejected before the buffer is allocated
     cparser: VwscChannelParser = CHANNEL_PARSERS[frame_size]
+    
+    channelDataList = bytearray(channel_count * frame_size)
     
     column = 0
     while idx < dataSize:
